@@ -41,9 +41,10 @@ static const char *C_DEFS = "#include <stdint.h>\n#include <string.h>\n#include 
   "struct RII { int64_t a, b; }; struct RDD { double a, b; }; struct RID { int64_t a; double b; }; struct RDI { double a; int64_t b; };\n"
   "extern char abi_img[]; extern void *chk_target; extern int64_t chk_status; extern char chk_thunk[];\n";
 
-typedef struct { int n; uint8_t t[26]; int vfrom; /* index of the first variadic argument, -1 if none */ int nres; uint8_t r[2]; int rblk; int body; } proto;
+typedef struct { int n; uint8_t t[140]; int vfrom; /* index of the first variadic argument, -1 if none */ int nres; uint8_t r[2]; int rblk; int body; } proto;
 #define SLOT 32
-#define IMG_SIZE 2048
+#define IMG_SIZE 8192
+#define BODY_SLOT 250
 uint8_t abi_img[IMG_SIZE] __attribute__ ((aligned (16)));
 static uint8_t exp_img[IMG_SIZE], buf[4096] __attribute__ ((aligned (16)));
 
@@ -73,12 +74,13 @@ __asm__ (".text\n.globl chk_thunk\n.type chk_thunk,@function\nchk_thunk:\n"
 
 /* ---------------- enumeration ---------------- */
 static int callee_mode, thorough_p;
-static uint64_t G1, G2, G3, G4, G5, NPROTO;
+static uint64_t G1, G2, G3, G4, G5, G6, NPROTO;
+static const int LONG_N[6] = {30, 64, 65, 66, 100, 130};
 #define VT_N 6
 static const uint8_t VT[VT_N] = {T_I64, T_D, T_LD, T_BM, T_BI, T_BS};
 static const uint8_t RS1[12] = {T_I8, T_U8, T_I16, T_U16, T_I32, T_U32, T_I64, T_U64, T_P, T_F, T_D, T_LD};
 static uint64_t ipow (uint64_t b, int e) { uint64_t r = 1; while (e--) r *= b; return r; }
-static void add_arg (proto *p, int t) { if (p->n < 26) p->t[p->n++] = t; }
+static void add_arg (proto *p, int t) { if (p->n < 140) p->t[p->n++] = t; }
 static void decode (uint64_t idx, proto *p) {
   memset (p, 0, sizeof *p); p->vfrom = -1;
   if (callee_mode) { p->body = idx % 2; idx /= 2; }
@@ -102,19 +104,23 @@ static void decode (uint64_t idx, proto *p) {
     p->vfrom = p->n; for (int i = 0; i < len; i++) { add_arg (p, VT[idx % VT_N]); idx /= VT_N; }
     p->nres = 1; p->r[0] = T_I64; return; }
   idx -= G4;
+  if (idx >= G5) { idx -= G5; int n = LONG_N[idx % 6], k = (int) (idx / 6); /* long argument lists: all integers, all doubles, alternating with a long double every 16th */
+    for (int i = 0; i < n; i++) add_arg (p, k == 0 ? T_I64 : k == 1 ? T_D : i % 16 == 15 ? T_LD : i % 2 ? T_D : T_I32);
+    p->nres = 1; p->r[0] = T_I64; return; }
   p->rblk = 1;
   if (idx == 1) add_arg (p, T_I64); else if (idx == 2) add_arg (p, T_D); else if (idx == 3) add_arg (p, T_BI); else if (idx == 4) for (int i = 0; i < 6; i++) add_arg (p, T_I64);
 }
 void drv_init (int thorough) {
   thorough_p = thorough; const char *m = getenv ("VP_MODE"); callee_mode = m && !strcmp (m, "callee");
-  G1 = 2 * (1 + NT + NT * NT + (uint64_t) NT * NT * NT); G2 = 9 * 11 * 3 * NT; G3 = 16 * 4; G4 = 4 * (1 + VT_N + VT_N * VT_N + VT_N * VT_N * VT_N); G5 = 5;
-  NPROTO = G1 + G2 + G3 + G4 + G5;
+  G1 = 2 * (1 + NT + NT * NT + (uint64_t) NT * NT * NT); G2 = 9 * 11 * 3 * NT; G3 = 16 * 4; G4 = 4 * (1 + VT_N + VT_N * VT_N + VT_N * VT_N * VT_N); G5 = 5; G6 = 6 * 3;
+  NPROTO = G1 + G2 + G3 + G4 + G5 + G6;
 }
 uint64_t drv_ncases (void) { return NPROTO * (callee_mode ? 2 : 1); }
 void drv_describe (uint64_t idx, char *b, size_t n) {
   proto p; decode (idx, &p); size_t k = snprintf (b, n, "%s proto=(", callee_mode ? "C06" : "C05");
   if (p.rblk) k += snprintf (b + k, n - k, "rblk:24%s", p.n ? "," : "");
-  for (int i = 0; i < p.n && k < n; i++) k += snprintf (b + k, n - k, "%s%s%s", i == p.vfrom ? "...," : "", KIND_N[p.t[i]], i + 1 < p.n ? "," : "");
+  if (p.n > 26) k += snprintf (b + k, n - k, "%d arguments: %s,%s,...,%s", p.n, KIND_N[p.t[0]], KIND_N[p.t[1]], KIND_N[p.t[15]]);
+  else for (int i = 0; i < p.n && k < n; i++) k += snprintf (b + k, n - k, "%s%s%s", i == p.vfrom ? "...," : "", KIND_N[p.t[i]], i + 1 < p.n ? "," : "");
   if (p.vfrom == p.n) k += snprintf (b + k, n - k, "%s...", p.n ? "," : "");
   k += snprintf (b + k, n - k, ")->(");
   for (int i = 0; i < p.nres && k < n; i++) k += snprintf (b + k, n - k, "%s%s", KIND_N[p.r[i]], i + 1 < p.nres ? "," : "");
@@ -275,11 +281,11 @@ static void render_callee (uint64_t idx, const proto *p) { /* C06: MIR function 
   for (int k = 0; k < 14; k++) S (", i64:w%d", k);
   S ("\n  mov ip, abi_img\n");
   if (p->body) { /* values that stay live across a native call: callee-saved registers or spill slots, and an alloca block */
-    S ("  alloca al, 48\n  mov i64:(al), 77\n  mov i64:40(al), 99\n  and t0, al, 15\n  mov i64:%d(ip), t0\n", 30 * SLOT);
+    S ("  alloca al, 48\n  mov i64:(al), 77\n  mov i64:40(al), 99\n  and t0, al, 15\n  mov i64:%d(ip), t0\n", BODY_SLOT * SLOT);
     for (int k = 0; k < 14; k++) S ("  add w%d, ip, %d\n", k, k * 17 + 3);
     S ("  call p_nat, enat, t0, w3\n");
     S ("  mov t0, 0\n"); for (int k = 0; k < 14; k++) S ("  sub w%d, w%d, ip\n  mul t0, t0, 3\n  add t0, t0, w%d\n", k, k, k);
-    S ("  add t0, t0, i64:(al)\n  add t0, t0, i64:40(al)\n  mov i64:%d(ip), t0\n", 31 * SLOT);
+    S ("  add t0, t0, i64:(al)\n  add t0, t0, i64:40(al)\n  mov i64:%d(ip), t0\n", (BODY_SLOT + 1) * SLOT);
   }
   for (int i = 0; i < nfix; i++) { char nm[16]; snprintf (nm, sizeof nm, "a%d", i); store_param (p, i, nm); }
   if (p->vfrom >= 0) {
@@ -325,7 +331,7 @@ void drv_case (uint64_t idx) {
   if (p.rblk) { for (int q = 0; q < 3; q++) { uint64_t v = ival (70 + q); memcpy (exp_res + 8 * q, &v, 8); } }
   else for (int j = 0; j < p.nres; j++) { int t = p.r[j]; uint8_t *s = exp_res + 16 * j;
     if (is_int (t)) { int64_t v = narrow (t, rival (j)); memcpy (s, &v, 8); } else if (t == T_F) { float f = 1.5f + j; memcpy (s, &f, 4); } else if (t == T_D) { double d = -2.25 - j; memcpy (s, &d, 8); } else { long double l = 3.75L + j; memcpy (s, &l, 10); } }
-  if (callee_mode && p.body) { int64_t z = 0, acc = 0; memcpy (exp_img + 30 * SLOT, &z, 8); for (int k = 0; k < 14; k++) acc = acc * 3 + (k * 17 + 3); acc += 77 + 99; memcpy (exp_img + 31 * SLOT, &acc, 8); }
+  if (callee_mode && p.body) { int64_t z = 0, acc = 0; memcpy (exp_img + BODY_SLOT * SLOT, &z, 8); for (int k = 0; k < 14; k++) acc = acc * 3 + (k * 17 + 3); acc += 77 + 99; memcpy (exp_img + (BODY_SLOT + 1) * SLOT, &acc, 8); }
   static const mh_engine ENG5[] = {E_INTERP, E_GEN0, E_GEN1, E_GEN2, E_GEN3}, ENG6[] = {E_ISHIM, E_GEN0, E_GEN1, E_GEN2, E_GEN3, E_LAZY};
   int ne = callee_mode ? 6 : 5; uint64_t compared = 0;
   for (int ei = 0; ei < ne; ei++) {
@@ -349,9 +355,9 @@ void drv_case (uint64_t idx) {
       fault_armed = 0;
     } else { mh_arm (0); vp_fail ("fault-during-call", "engine=%s: signal %d while the call was in progress (a misaligned stack at the native callee faults on purpose)", en, fault_sig); mh_close (&mc); goto out; }
     mh_arm (0); compared++;
-    int d = first_diff (abi_img, exp_img, (size_t) (callee_mode ? 32 : p.n) * SLOT);
+    int d = first_diff (abi_img, exp_img, (size_t) (callee_mode ? 256 : p.n) * SLOT);
     if (d >= 0) { char a[40], b[40]; int k = d / SLOT; hex (a, abi_img + k * SLOT, 16); hex (b, exp_img + k * SLOT, 16);
-      vp_fail (callee_mode ? "callee-sees-wrong-parameter" : "native-callee-sees-wrong-argument", "engine=%s: %s #%d%s: first 16 bytes seen %s, expected %s", en, k >= 30 ? "body slot" : "argument", k, k < p.n ? KIND_N[p.t[k]] : "", a, b); mh_close (&mc); goto out; }
+      vp_fail (callee_mode ? "callee-sees-wrong-parameter" : "native-callee-sees-wrong-argument", "engine=%s: %s #%d%s: first 16 bytes seen %s, expected %s", en, k >= BODY_SLOT ? "body slot" : "argument", k, k < p.n ? KIND_N[p.t[k]] : "", a, b); mh_close (&mc); goto out; }
     int rn = p.rblk ? 24 : p.nres * 16;
     for (int j = 0; j < (p.rblk ? 1 : p.nres); j++) { int len = p.rblk ? 24 : is_int (p.r[j]) ? 8 : p.r[j] == T_F ? 4 : p.r[j] == T_D ? 8 : 10;
       if (memcmp (got_res + 16 * j, exp_res + 16 * j, len)) { char a[60], b[60]; hex (a, got_res + 16 * j, len > 24 ? 24 : len); hex (b, exp_res + 16 * j, len > 24 ? 24 : len);
